@@ -2,6 +2,18 @@
 // VP-FAIL / VP-SAMPLE / VP-SUMMARY output protocol, tier and seed handling, an in-memory block
 // store with a request log and fault injection, an independent dag-pb block walker (protowire
 // only, no go-codec-dagpb), the boxo reference importers and a murmur3 prefix-collision search.
+//
+// Protocol (stdout of `go test -count=1 -vet=off -run TestBounded ./cNN`):
+//
+//	VP-FAIL {"case":"<id>","detail":"<observed vs expected>"}   one per failing case
+//	VP-SAMPLE {...}                                               at most five explored cases
+//	VP-NOTE ...                                                   only if VP-FAIL lines were capped
+//	VP-SUMMARY {"Evaluations":N,"Distinct":M}                     exactly once, last
+//
+// The test fails iff at least one VP-FAIL was reported. VERIF_TIER=quick|thorough selects the
+// bound, VERIF_SEED (default 0) seeds every random choice. Because `go test` without -v throws
+// away the stdout of a passing package, Run.Done mirrors the lines (see Run.mirror; VERIF_OUT
+// names a file to append them to instead).
 package vp
 
 import (
@@ -58,6 +70,14 @@ type Run struct {
 	perClass map[string]int
 	hidden   int
 	samples  int
+	lines    []string // every protocol line printed so far
+}
+
+// emit prints one protocol line on stdout and remembers it for Done.
+func (r *Run) emit(format string, args ...any) {
+	line := fmt.Sprintf(format, args...)
+	fmt.Println(line)
+	r.lines = append(r.lines, line)
 }
 
 // at most this many VP-FAIL lines are printed per class of case ids (the text before the first
@@ -100,7 +120,7 @@ func (r *Run) Fail(caseID, format string, args ...any) {
 		return
 	}
 	b, _ := json.Marshal(map[string]string{"case": caseID, "detail": detail})
-	fmt.Printf("VP-FAIL %s\n", b)
+	r.emit("VP-FAIL %s", b)
 }
 
 // Sample prints one explored case (at most five per run are printed).
@@ -115,7 +135,7 @@ func (r *Run) Sample(v any) {
 	if err != nil {
 		b = []byte(strconv.Quote(fmt.Sprint(v)))
 	}
-	fmt.Printf("VP-SAMPLE %s\n", b)
+	r.emit("VP-SAMPLE %s", b)
 }
 
 // Failed reports whether any case failed so far.
@@ -126,11 +146,41 @@ func (r *Run) Done() {
 	r.mu.Lock()
 	defer r.mu.Unlock()
 	if r.hidden > 0 {
-		fmt.Printf("VP-NOTE %d further failing cases not printed (limit %d per class)\n", r.hidden, maxFailLinesPerClass)
+		r.emit("VP-NOTE %d further failing cases not printed (limit %d per class)", r.hidden, maxFailLinesPerClass)
 	}
-	fmt.Printf("VP-SUMMARY {\"Evaluations\":%d,\"Distinct\":%d}\n", r.evals, len(r.distinct))
+	r.emit("VP-SUMMARY {\"Evaluations\":%d,\"Distinct\":%d}", r.evals, len(r.distinct))
 	if r.fails > 0 {
 		r.t.Fail()
+	}
+	r.mirror()
+}
+
+// mirror copes with `go test` discarding the stdout of a PASSING package unless -v is given:
+//   - if VERIF_OUT names a file, every protocol line is appended to it (pass or fail);
+//   - otherwise, when the test passes without -v, the lines are written straight to the go
+//     command's own stdout (/proc/<ppid>/fd/1) provided that is a pipe or a terminal (for a regular
+//     file the two writers' offsets would clash, so nothing is done). With -v, or when the test
+//     fails, go prints the buffered output itself and nothing is mirrored (no duplicates).
+func (r *Run) mirror() {
+	text := strings.Join(r.lines, "\n") + "\n"
+	if path := os.Getenv("VERIF_OUT"); path != "" {
+		if f, err := os.OpenFile(path, os.O_WRONLY|os.O_APPEND|os.O_CREATE, 0o644); err == nil {
+			f.WriteString(text)
+			f.Close()
+		}
+		return
+	}
+	if r.fails > 0 || r.t.Failed() || testing.Verbose() {
+		return
+	}
+	path := fmt.Sprintf("/proc/%d/fd/1", os.Getppid())
+	st, err := os.Stat(path)
+	if err != nil || st.Mode()&(os.ModeNamedPipe|os.ModeCharDevice) == 0 {
+		return
+	}
+	if f, err := os.OpenFile(path, os.O_WRONLY|os.O_APPEND, 0); err == nil {
+		f.WriteString(text)
+		f.Close()
 	}
 }
 
@@ -647,15 +697,16 @@ func Hash64(name string) uint64 { return murmur3.Sum64([]byte(name)) }
 func Colliding(n int, bits uint, r *rand.Rand) []string {
 	var out []string
 	var want uint64
-	tag := r.Intn(1 << 20)
+	prefix := []byte(fmt.Sprintf("c%x-", r.Intn(1<<20)))
+	buf := make([]byte, 0, 32)
 	for i := 0; len(out) < n; i++ {
-		nm := fmt.Sprintf("c%x-%d", tag, i)
-		p := Hash64(nm) >> (64 - bits)
+		buf = strconv.AppendInt(append(buf[:0], prefix...), int64(i), 10)
+		p := murmur3.Sum64(buf) >> (64 - bits)
 		if len(out) == 0 {
 			want = p
-			out = append(out, nm)
+			out = append(out, string(buf))
 		} else if p == want {
-			out = append(out, nm)
+			out = append(out, string(buf))
 		}
 	}
 	return out
